@@ -198,6 +198,21 @@ const EMPTY_CS_CONTEXTS: [&str; 40] = [
     "\\dimen 1=1", "\\skip 1=1pt plus", "\\newInt", "\\newIntArray", "\\def\\a#1{#1}\\a", "\\iffalse", "{",
 ];
 const EMPTY_CS_ENDINGS: [&str; 5] = ["\\", "\\\n", "\\\nx", "\\\n\\relax x", "\\\n=1 "];
+/// A command whose name has 1-, 2-, 3- or 4-byte characters is defined, THEN an undefined command is executed
+/// (the default handler's UndefinedCommandError compares the name with every name in the commands map).
+fn multibyte_name_programs() -> Vec<String> {
+    let defs = [
+        r"\def\a{}", r"\def\é{}", r"\let\中=\relax ", r"\def\𝔸{}", r"\catcode`\é=11 \def\éé{}", r"\catcode`\中=11 \catcode`\𝔸=11 \let\a中𝔸b=\relax ", r"\gdef\→{x}\chardef\é=65 \countdef\𝔸=1 ",
+    ];
+    let undefs = [r"\undefinedcs", r"\xyz ", r"\é", r"\→", "~", r"\éé ", r"\a中𝔸 ", r"\ "];
+    let mut v = vec![];
+    for d in defs {
+        for u in undefs {
+            v.push(format!("{d}{u}"));
+        }
+    }
+    v
+}
 fn mini_vocab() -> Vec<String> {
     ["\\the", "\\def", "\\a", "{", "}", "#", "1", "-", "2147483647", "é", "\\fi", "\\read"].iter().map(|s| s.to_string()).collect()
 }
@@ -338,6 +353,8 @@ struct Families {
     /// nonascii-lines: core strings up to this length, then every non-empty truncation of every seed
     lines_core_len: u32,
     lines_trunc_cum: Vec<u64>,
+    mbnames: Vec<Vec<String>>,
+    mbnames_cum: Vec<u64>,
 }
 impl Families {
     fn new(quick: bool) -> Families {
@@ -365,7 +382,12 @@ impl Families {
         for sd in &seeds {
             lines_trunc_cum.push(lines_trunc_cum.last().unwrap() + sd.len() as u64);
         }
-        Families { lines_core_len: if quick { 2 } else { 3 }, lines_trunc_cum, extreme, extreme_cum, extreme_vocab, full, core, mini, seeds, dev1_cum, dev1_vocab, dev2_cum, short_full_len: if quick { 2 } else { 3 }, short_core_len: if quick { 3 } else { 4 }, resource: resource_programs() }
+        let mbnames: Vec<Vec<String>> = multibyte_name_programs().iter().map(|s| chunks(s)).collect();
+        let mut mbnames_cum = vec![0u64];
+        for e in &mbnames {
+            mbnames_cum.push(mbnames_cum.last().unwrap() + Self::n_dev(e.len() as u64, mini.len() as u64));
+        }
+        Families { mbnames, mbnames_cum, lines_core_len: if quick { 2 } else { 3 }, lines_trunc_cum, extreme, extreme_cum, extreme_vocab, full, core, mini, seeds, dev1_cum, dev1_vocab, dev2_cum, short_full_len: if quick { 2 } else { 3 }, short_core_len: if quick { 3 } else { 4 }, resource: resource_programs() }
     }
     fn n_dev(n: u64, k: u64) -> u64 {
         n + n * k + (n + 1) * k
@@ -398,6 +420,8 @@ impl Families {
             "nonascii-lines" => (vcore::strings_upto(self.core.len() as u64, self.lines_core_len) + self.lines_trunc_cum.last().unwrap()) * WRAPPERS.len() as u64 * 4,
             "stdlib-state" => self.lines_trunc_cum.last().unwrap() * 4,
             "strict-short" => vcore::strings_upto(self.full.len() as u64, 2) * 4,
+            "multibyte-names" => self.mbnames.len() as u64 * 8,
+            "multibyte-names-dev1" => *self.mbnames_cum.last().unwrap() * 4,
             // contexts x endings, then every seed truncation with the first ending; x {recording, strict} handlers x 4 modes
             "empty-cs" => ((EMPTY_CS_CONTEXTS.len() * EMPTY_CS_ENDINGS.len()) as u64 + self.lines_trunc_cum.last().unwrap()) * 8,
             "extreme-arith" => self.extreme.len() as u64 * 4,
@@ -452,6 +476,15 @@ impl Families {
                     join(&self.seeds[sd][..=k])
                 };
                 (mode, format!("{}{}{}", w.0, body, w.1))
+            }
+            "multibyte-names" => ((idx % 4) as usize, join(&self.mbnames[(idx / 8) as usize])),
+            "multibyte-names-dev1" => {
+                let j = idx / 4;
+                let e = match self.mbnames_cum.binary_search(&j) {
+                    Ok(i) => i,
+                    Err(i) => i - 1,
+                };
+                ((idx % 4) as usize, join(&Self::deviate(&self.mbnames[e], &self.mini, j - self.mbnames_cum[e]).expect("deviation index")))
             }
             "strict-short" => {
                 let mut src = String::new();
@@ -789,8 +822,9 @@ fn worker(family: &str, lo: u64, hi: u64, progress: &str, quick: bool) -> ! {
                     }
                 }
                 let (mode, body) = fams.program(&family, idx);
-                let strict = family == "strict-short" || (family == "empty-cs" && (idx / 4) % 2 == 1);
-                let v = if family == "stdlib-state" {
+                let strict = family == "strict-short" || family.starts_with("multibyte-names") || (family == "empty-cs" && (idx / 4) % 2 == 1);
+                let on_stdlib = family == "stdlib-state" || (family == "multibyte-names" && (idx / 4) % 2 == 1);
+                let v = if on_stdlib {
                     run_case_stdlib(mode, &body)
                 } else if strict {
                     run_case_with::<vtex::HStrict>(mode, &body)
@@ -813,6 +847,7 @@ fn worker(family: &str, lo: u64, hi: u64, progress: &str, quick: bool) -> ! {
                     ("empty_named_control_sequence_reaches_a_scanner", family == "empty-cs" && body.len() > "\\endlinechar=-1 \n\\".len() + 1 && !body.starts_with("\\endlinechar=-1 \n\\")),
                     // default (strict) undefined-command handler and the first token is the undefined active character
                     ("undefined_active_character_executed", (strict || family == "stdlib-state") && (body.starts_with('~') || body.starts_with("{\\def~{x}~}~"))),
+                    ("undefined_command_while_a_multibyte_name_is_defined", family == "multibyte-names" && !body.starts_with("\\def\\a{}")),
                     ("program_uses_active_macro_or_alias", body.contains('?') || body.contains('@') || body.contains('|')),
                     ("program_reads_empty_or_blank_file", body.contains("\\input e") || body.contains("\\input w")),
                 ] {
@@ -1171,6 +1206,8 @@ fn main() {
     run_family(&mut ctx, &fams, "seed-dev1", &format!("{} seeds (the repository's all_error_cases + 48 idioms), unchanged and with every single deletion / substitution / insertion of a token from a {}-token vocabulary at every position, x 4 interaction modes", fams.seeds.len(), fams.dev1_vocab.len()));
     run_family(&mut ctx, &fams, "nonascii-lines", &format!("every core string of <= {} tokens and every non-empty truncation of every seed (the input ends inside the construct that is open there), each wrapped in {} placements: multi-byte text (2-, 3- and 4-byte characters on one or several earlier lines, earlier on the same line, later on the same line, on later lines) and plain endings / beginnings (as is, final newline, CR LF, trailing blank lines, leading blank line, inside an unclosed group) x 4 interaction modes", fams.lines_core_len, WRAPPERS.len()));
     run_family(&mut ctx, &fams, "strict-short", &format!("every string of <= 2 tokens over the full vocabulary ({nf} tokens) x 4 interaction modes under the VM's default undefined-command handler (HStrict): an undefined control sequence or active character is the fatal UndefinedCommandError"));
+    run_family(&mut ctx, &fams, "multibyte-names", &format!("{} programs (7 definitions of names with 1-, 2-, 3- and 4-byte characters, single and several characters, by \\def / \\let / \\gdef / \\chardef / \\countdef x 8 undefined commands incl. near-misses of the defined names and an undefined active character) x default handlers on the harness state / the repository's StdLibState x 4 interaction modes", fams.mbnames.len()));
+    run_family(&mut ctx, &fams, "multibyte-names-dev1", &format!("the same programs with every single deletion / substitution / insertion over a {}-token vocabulary, default handlers, 4 interaction modes", fams.mini.len()));
     run_family(&mut ctx, &fams, "empty-cs", &format!("\\endlinechar=-1 on line 1, then {} scanning positions x {} endings in which the input or a line ends with the escape character (the control sequence with the empty name), and every non-empty truncation of every seed followed by the escape character; x recording / default handlers x 4 interaction modes", EMPTY_CS_CONTEXTS.len(), EMPTY_CS_ENDINGS.len()));
     run_family(&mut ctx, &fams, "stdlib-state", "every non-empty truncation of every seed x 4 interaction modes on the repository's own StdLibState with DefaultHandlers (the glue layer named in the property's file list; no harness hooks)");
     run_family(&mut ctx, &fams, "extreme-arith", &format!("{} programs x 4 interaction modes: a \\count, a \\dimen, and the width / stretch / shrink of a \\skip driven to exactly -2^31 and to 2^31-1 by \\advance wrap-around, then every arithmetic primitive with each operand of -1, 0, 1, 2, 2^31-1, -2^31 (from another register), and 29 coercion contexts (assignments with signs, fractions and units, glue components, conditionals, \\the, register indices, operands of \\advance/\\multiply/\\divide on other registers)", fams.extreme.len()));
@@ -1195,6 +1232,7 @@ fn main() {
         ("program_on_stdlib_state", "a run on the repository's StdLibState"),
         ("empty_named_control_sequence_reaches_a_scanner", "with \\endlinechar=-1 a line or the input ends with the escape character after a scanning primitive: the empty-named control sequence"),
         ("undefined_active_character_executed", "an undefined active character reaches the main loop under the VM's default undefined-command handler"),
+        ("undefined_command_while_a_multibyte_name_is_defined", "a command with a multi-byte name is defined and then an undefined command is executed under the default handler"),
         ("program_uses_active_macro_or_alias", "an active character that is a macro, an alias of a primitive or an \\outer macro"),
         ("program_reads_empty_or_blank_file", "\\input of an empty / blank-only file"),
     ] {
